@@ -966,6 +966,70 @@ func vC03ProbeNegativeStart(t testing.TB, res *vResult) {
 	res.Note(fmt.Sprintf("probe NewReader(-1, committed) on log {0} with hw=-1: delivered [%s] end=%q (model precondition 0 <= start; partition.getStartOffset clamps negative offsets to 0)", vC03Ranges(offs), end))
 }
 
+// vC03ReaderCreationRace: a committed reader is CREATED while the high watermark advances (for the last time): whatever the
+// reader sampled while it was being set up, it must deliver everything up to the final HW - nobody will move the HW again
+// to wake it. Many short trials; the two calls are released together.
+func vC03ReaderCreationRace(t testing.TB, res *vResult, rnd *vRand) {
+	trials := 400
+	if vThorough() {
+		trials = 6000
+	}
+	fails := 0
+	for trial := 0; trial < trials && fails < 3; trial++ {
+		n := 4 + rnd.Intn(6)
+		k := int64(rnd.Intn(n - 1)) // HW before the race
+		v := &vLogImpl{t: t}
+		v.exec([]string{"begin 1048576 0", "begin 100 0"}[rnd.Intn(2)])
+		for i := 0; i < n; i++ {
+			v.l.Append([]*Message{{MagicByte: 1, Timestamp: int64(i + 1), Value: vC03Val(int64(i), 0), Offset: -1}})
+		}
+		v.l.SetHighWatermark(k)
+		start := make(chan struct{})
+		var r *Reader
+		var rerr error
+		var wg sync.WaitGroup
+		wg.Add(2)
+		go func() { defer wg.Done(); <-start; r, rerr = v.l.NewReader(0, false) }()
+		go func() {
+			defer wg.Done()
+			<-start
+			if d := rnd.Intn(40); d > 0 {
+				time.Sleep(time.Duration(d) * time.Microsecond)
+			}
+			v.l.SetHighWatermark(int64(n - 1))
+		}()
+		close(start)
+		wg.Wait()
+		line := fmt.Sprintf("reader-creation-race n=%d hw-before=%d", n, k)
+		res.Count(fmt.Sprintf("%s #%d", line, trial), true)
+		if trial == 0 {
+			res.Dist("reader-creation-race")
+		}
+		if rerr != nil {
+			res.Fail(vFailure{Kind: "disagreement", Case: []string{line}, Detail: "NewReader: " + rerr.Error()})
+			v.close()
+			return
+		}
+		var got []int64
+		buf := make([]byte, 28)
+		for len(got) < n {
+			ctx, cancel := context.WithTimeout(context.Background(), 1500*time.Millisecond)
+			_, off, _, _, err := r.ReadMessage(ctx, buf)
+			cancel()
+			if err != nil {
+				break
+			}
+			got = append(got, off)
+		}
+		if len(got) != n {
+			fails++
+			res.Fail(vFailure{Kind: "spec", Case: []string{line}, Tag: "committed-reader-stuck",
+				Detail: fmt.Sprintf("the HW went from %d to %d while the reader was created and has not moved since; the reader delivered [%s] and then nothing for 1.5 s - offsets up to %d are committed", k, n-1, vC03Ranges(got), n-1)})
+		}
+		v.close()
+	}
+}
+
 // vC03SegmentReplaced: a committed reader whose segment is REPLACED underneath it (compaction rewrites every segment
 // but the newest; a tail truncation rewrites the segment it cuts) re-attaches itself and goes on - still as a
 // committed reader: nothing above the HW, offsets strictly increasing, and everything committed that is still
@@ -1311,6 +1375,7 @@ func TestVerifC03(t *testing.T) {
 	// (g) several HW writers at once (a leader has two: the commit loop and the replication-factor-1 fast path)
 	vC03ConcurrentHW(t, res, rnd)
 	vC03SegmentReplaced(t, res, rnd)
+	vC03ReaderCreationRace(t, res, rnd)
 
 	// (d) free-running stress
 	total := 5 * time.Second
